@@ -211,6 +211,21 @@ CLAIMED["C09"] = (
     "DESIGN.md section 6, C09",
 )
 
+CLAIMED["C15"] = (
+    "Coq theorems: load_clip returns exactly floor(duration*sr) frames = the file's frames from floor(start*sr) on, zero past "
+    "the end, on the time lattice (offset+i)/sr with step 1/sr (axis length = frame count, so construction cannot fail), "
+    "each frame equal to the same frame of load_recording; load_recording = the file on the lattice i/sr; a lattice axis is "
+    "strictly increasing with coordinate i exactly first+i*step; resample: scipy's time vector starts at the source start and "
+    "every coordinate is within one advertised step (1/target) of first+i/target; spectrogram: both axes are exact lattices "
+    "with the advertised steps, the time step being a whole number >= 1 of audio samples. Correspondence on harness-written "
+    "WAV files (power-of-two rates exact; 8000..48000 Hz with margins), clips across / at / beyond EOF.",
+    "Trusted: Coq kernel/vm_compute; libsndfile seek/read/zero-fill, scipy stft framing (boundary='zeros', padded) and "
+    "scipy.signal.resample's time vector are modelled from their source and validated by correspondence only; IEEE rounding "
+    "of floor(start*sr) not modelled (inputs exact or with 1e-6 margin); windows longer than the audio excluded.",
+    "Rocq/Coq proof over Q/Z (built on the C16 range theorems) + model/implementation correspondence by vm_compute",
+    "DESIGN.md section 6, C15",
+)
+
 NOT_YET = {}
 
 
